@@ -208,6 +208,7 @@ def jobs(tier):
         # lumped losses off the solver grid (one inside the first solver step): non-uniform integration steps
         js.append(dict(name=f'H5c:raman_on_zero_coupling:{method}:order{order}:offgrid_lumped', fn='h_raman_lumped',
                        params=dict(method=method, order=order, pumps=False, positions=(0.02, 12.5)), cost=20))
+    js.append(dict(name='H5c:raman_span_input_pad_counts', module='harness.elems', fn='h_raman_fiber_pad', cost=40))
     js.append(dict(name='H5c:raman_on_first_order_per_frequency_loss', fn='h_raman_first_order', cost=30, opts=dict(exp_monotone=True)))
     # accumulated CD / PMD / PDL / latency stay attached to their carrier when a spectrum is (re)built from unsorted pieces
     for via in ('init', 'add'):
